@@ -20,7 +20,8 @@ RULE = (
     "constant), applied in every order: all orders that the library accepts give == wrappers "
     "with the same name, CachedFcn iff cached was applied, re-applying cached / serializable is idempotent, a second "
     "name raises ValueError.  (history) a call history on a wrapped (cached or not, named or not) counting function: "
-    "arguments from a pool of scalars (1, 1.0, 2.5), equal-but-distinct and different arrays, fresh dict records of "
+    "arguments from a pool of scalars (1, 1.0, 2.5), equal-but-distinct and different arrays, different same-shaped "
+    "views of one buffer (consecutive chunks, columns of one record array), fresh dict records of "
     "scalars and of arrays, keyword arguments, repeated and changing in any interleaving: every call returns exactly "
     "(value and type) what the bare function returns and the underlying function is never called more often than the "
     "wrapper.  (expression) an expression AST over fields x, y, z (+ - * /, unary minus, comparisons, and/or/not, "
@@ -170,7 +171,7 @@ def strategy(tier):
     @st.composite
     def history(draw):
         n = draw(st.integers(1, 12 if thorough else 8))
-        pool = ("s1", "s1f", "s2.5", "a12", "a12", "a13", "a1", "d1", "d1", "d2", "da12", "da12", "da1", "dx1", "dx1", "dax1", "k1", "k1", "k2", "none")
+        pool = ("s1", "s1f", "s2.5", "a12", "a12", "a13", "a1", "d1", "d1", "d2", "da12", "da12", "da1", "dx1", "dx1", "dax1", "k1", "k1", "k2", "none", "v01", "v23", "v01", "v23", "rx", "ry", "dv01", "dv23")
         return {
             "mode": "history",
             "cached": draw(st.integers(0, 3)) > 0,
@@ -270,8 +271,25 @@ def check_algebra(case):
     return {"nontrivial": len(ops) >= 2 and len(results) >= 1, "labels": ["mode:algebra", "base:" + case["base"], f"orders:{len(results)}"]}
 
 
+_BASE = np.array([1.0, 2.0, 3.0, 4.0])
+_REC = np.rec.fromarrays([np.array([1.0, 2.0]), np.array([5.0, 6.0])], names=["x", "y"])
+
+
 def _arg(token):
     """Fresh argument objects for a pool token: (args, kwargs)."""
+    # consecutive chunks / columns of one table: different views (same shape, dtype, strides) of one buffer
+    if token == "v01":
+        return (_BASE[0:2],), {}
+    if token == "v23":
+        return (_BASE[2:4],), {}
+    if token == "rx":
+        return (_REC["x"],), {}
+    if token == "ry":
+        return (_REC["y"],), {}
+    if token == "dv01":
+        return ({"x": _BASE[0:2]},), {}
+    if token == "dv23":
+        return ({"x": _BASE[2:4]},), {}
     if token == "s1":
         return (1,), {}
     if token == "s1f":
